@@ -33,35 +33,50 @@ structure Mini where
 
 def u64s (l : List Nat) : Bytes := l.flatMap (leBytes 8)
 
-/-- the `[3, n]` index of one minishard: Δids, Δoffsets (first = `off`, others 0), sizes -/
-def indexBytes (off : Nat) (rows : List (Nat × Nat)) : Bytes :=
-  u64s (rows.map (·.1)) ++
-  u64s (match rows with | [] => [] | _ :: t => off :: t.map (fun _ => 0)) ++
-  u64s (rows.map (·.2))
+/-- index rows with their offset column: (Δid, Δoffset, size); the first Δoffset is the data
+    offset of the minishard, the others are 0 (chunks are contiguous) -/
+def rows3 (off : Nat) : List (Nat × Nat) → List (Nat × Nat × Nat)
+  | [] => []
+  | (d, sz) :: t => (d, off, sz) :: t.map fun (d, sz) => (d, 0, sz)
 
-/-- data offsets (relative to the end of the shard index) of the minishards, in order -/
-def dataOffsets : Nat → List Mini → List Nat
+/-- a `[3, n]` uint64le array: row of Δids, row of Δoffsets, row of sizes -/
+def encodeIndex (r : List (Nat × Nat × Nat)) : Bytes :=
+  u64s (r.map (·.1)) ++ u64s (r.map (·.2.1)) ++ u64s (r.map (·.2.2))
+
+/-- the encoded index of one minishard placed at data offset `off` -/
+def indexBytes (off : Nat) (rows : List (Nat × Nat)) : Bytes := encodeIndex (rows3 off rows)
+
+/-- start positions of consecutive regions of the given lengths, from `acc` -/
+def starts : Nat → List Nat → List Nat
   | _, [] => []
-  | acc, mn :: t => acc :: dataOffsets (acc + mn.data.length) t
+  | acc, l :: t => acc :: starts (acc + l) t
 
-def totalData (minis : List Mini) : Nat := (minis.map (·.data.length)).sum
+def pairs (l : List (Nat × Nat)) : List Nat := l.flatMap fun (a, b) => [a, b]
 
-/-- shard-index entries (start, end) for consecutive encoded indices starting at `pos` -/
-def indexEntries : Nat → List Bytes → List (Nat × Nat)
-  | _, [] => []
-  | pos, b :: t => (pos, pos + b.length) :: indexEntries (pos + b.length) t
+/-- the encoded minishard indices, each with the data offset of its minishard
+    (`minishard.offset = data_size` in `Shard.close`) -/
+def indices (minis : List Mini) : List Bytes :=
+  (List.zip minis (starts 0 (minis.map (·.data.length)))).map fun (mn, o) => indexBytes o mn.rows
+
+def dszOf (minis : List Mini) : Nat := (minis.map (·.data.length)).sum
+def ilenOf (minis : List Mini) : List Nat := (indices minis).map (·.length)
+
+/-- shard-index entries (start, end) of consecutive indices, relative to the end of the shard index -/
+def entriesOf (dsz : Nat) (ilen : List Nat) : List (Nat × Nat) :=
+  (List.zip (starts dsz ilen) ilen).map fun x => (x.1, x.1 + x.2)
+
+/-- entries appended in the (packed) order of the present minishards, then padded with (end, end) -/
+def paddedOf (m : Nat) (minis : List Mini) : List (Nat × Nat) :=
+  entriesOf (dszOf minis) (ilenOf minis) ++
+    List.replicate (2 ^ m - (entriesOf (dszOf minis) (ilenOf minis)).length)
+      (dszOf minis + (ilenOf minis).sum, dszOf minis + (ilenOf minis).sum)
+
+def fileOf (m : Nat) (minis : List Mini) : Bytes :=
+  u64s (pairs (paddedOf m minis)) ++ (minis.map (·.data)).flatten ++ (indices minis).flatten
 
 /-- `Shard.close` for minishards already sorted by key; `none` = ShardedIOError (too many) -/
 def assemble (m : Nat) (minis : List Mini) : Option Bytes :=
-  let offs := dataOffsets 0 minis
-  let idxs := (List.zip minis offs).map fun (mn, o) => indexBytes o mn.rows
-  let dsz := totalData minis
-  let entries := indexEntries dsz idxs
-  let slots := 2 ^ m
-  if slots < entries.length then none else
-  let endPos := dsz + (idxs.map (·.length)).sum
-  let padded := entries ++ List.replicate (slots - entries.length) (endPos, endPos)
-  some (u64s (padded.flatMap fun (a, b) => [a, b]) ++ minis.flatMap (·.data) ++ idxs.flatten)
+  if 2 ^ m < (entriesOf (dszOf minis) (ilenOf minis)).length then none else some (fileOf m minis)
 
 /-! ### a reader written from the format specification only -/
 
